@@ -97,9 +97,12 @@ LEVEL_TEXT = ("Bounded model checking of the real KDTree: the input family and e
 
 
 def _fam(name, d, lat, nmin, nmax, q="full", strategies=ALL, orders=("sorted",), dtype="float", batch=8,
-         qalpha=None, leafs=(1, 2, 3)):
-    return dict(fam=name, d=d, lat=lat, nmin=nmin, nmax=nmax, q=q, strategies=list(strategies),
-                orders=list(orders), dtype=dtype, batch=batch, qalpha=qalpha, leafs=list(leafs))
+         qalpha=None, leafs=(1, 2, 3), units=None, all_units=False):
+    f = dict(fam=name, d=d, lat=lat, nmin=nmin, nmax=nmax, q=q, strategies=list(strategies),
+             orders=list(orders), dtype=dtype, batch=batch, qalpha=qalpha, leafs=list(leafs))
+    if units:      # unit-of-length deviation: the family is built and asked in these units only (see UNITS)
+        f.update(units=list(units), all_units=all_units)
+    return f
 
 
 BF = ["balanced", "fast"]
@@ -109,16 +112,26 @@ def _families(tier):
     """The small 1-D family first (so that the first counterexample of a fingerprint is a minimal one), then the heavy
     families, light ones last (the pool hands out tasks in order, so the tail stays light)."""
     if tier == "quick":
+        UQ = UNITS_OF_TIER["quick"]
         return [
             _fam("1d-L5", 1, L5, 0, 5, batch=12),
             _fam("3d-L2", 3, L2, 3, 3, strategies=BF, batch=6, qalpha=[-2, 0, 8, 16]),
             _fam("3d-L2", 3, L2, 0, 2, batch=6, qalpha=[-2, 0, 8, 16]),
+            _fam("1d-L5@unit", 1, L5, 2, 4, batch=12, units=UQ),
+            _fam("2d-L3@unit", 2, L3, 2, 2, batch=9, units=UQ, qalpha=[-2, 0, 1, 9, 16]),
+            _fam("2d-L3@unit-build", 2, L3, 3, 3, q="none", batch=42, units=UQ),
+            _fam("3d-L2@unit", 3, L2, 2, 2, batch=12, units=UQ, leafs=(1,), qalpha=[-2, 8, 16]),
             _fam("2d-L3", 2, L3, 0, 3, batch=6),
             _fam("2d-L5-build", 2, L5, 0, 3, q="none", batch=150),
         ]
     both = ("sorted", "reversed")
+    UT = UNITS_OF_TIER["thorough"]
     return [
         _fam("1d-L5", 1, L5, 0, 6, orders=both, batch=6),
+        _fam("1d-L5@unit", 1, L5, 2, 5, batch=4, units=UT, all_units=True),
+        _fam("2d-L3@unit", 2, L3, 2, 3, batch=3, units=UT, all_units=True),
+        _fam("2d-L5@unit-build", 2, L5, 3, 3, q="none", batch=60, units=UT, all_units=True),
+        _fam("3d-L2@unit", 3, L2, 2, 3, batch=3, units=UT, all_units=True, qalpha=[-2, 0, 8, 16]),
         _fam("2d-L3", 2, L3, 5, 5, strategies=BF, qalpha=[0, 1, 2, 9, 16], batch=6),
         _fam("2d-L3", 2, L3, 4, 4, batch=4),
         _fam("2d-L4", 2, L4, 3, 3, strategies=BF, batch=6),
@@ -140,7 +153,7 @@ def _fast51(tier):
     fams = ["line51"] if tier == "quick" else ["line51", "grid51", "cluster51"]
     leafs = [3] if tier == "quick" else [1, 2, 3]
     # reversed-sample deviations below 51 points only with leaf size 3 (~17 splits per build): 51 x (1 + splits) builds
-    return [dict(fam="fast51", which=w, leaf=l, symdev=(tier != "quick" and l == 3)) for w in fams for l in leafs]
+    return [dict(fam="fast51", which=w, leaf=l, symdev=(tier != "quick" and l == 3), omit=(l == 3)) for w in fams for l in leafs]
 
 
 def n_multisets(m, n):
@@ -163,6 +176,7 @@ def tasks(tier):
                 out.append(t)
         if i == 1:
             out += _forms_tasks(tier)
+            out += _call_tasks(tier)
     return out
 
 
@@ -222,6 +236,8 @@ class _Ctl:
     def choice(self, a, size=None, replace=True, p=None):
         import numpy as np
         a = np.asarray(a)
+        if a.ndim == 0 and np.issubdtype(a.dtype, np.integer):
+            a = np.arange(int(a))        # numpy's contract: an int population n stands for np.arange(n)
         if a.ndim != 1 or p is not None:
             raise SeamError(f"unsupported np.random.choice call: a.shape={a.shape} p={p is not None}")
         m = 1 if size is None else int(size)
@@ -345,16 +361,18 @@ class _Seam:
         return False
 
 
-def _build(arr, leaf, strat, script, symdev=True, shape=None):
+def _build(arr, leaf, strat, script, symdev=True, shape=None, call=None):
     """One execution of the real constructor under an answer script.
     Returns (status, tree_or_info, ctl); status in ok / cycle / cap / raises.
-    `arr` is handed to the constructor as is (any argument form); `shape` = (n, d) when it is not an array."""
+    `arr` is handed to the constructor as is (any argument form); `shape` = (n, d) when it is not an array.
+    `call` (optional) = function(cls) -> tree making the constructor call in another call form (keywords, omitted
+    arguments); the default form is cls(arr, leaf, strat), everything positional."""
     Probe = _probe_class()
     n, d = shape if shape is not None else arr.shape
     ctl = _Ctl(script, n, d, symdev)
     _CUR[0] = ctl
     try:
-        tree = Probe(arr, leaf, strat)
+        tree = Probe(arr, leaf, strat) if call is None else call(Probe)
         return "ok", tree, ctl
     except _Cycle:
         return "cycle", ctl.cycle_at, ctl
@@ -368,7 +386,7 @@ def _build(arr, leaf, strat, script, symdev=True, shape=None):
         _CUR[0] = None
 
 
-def _explore(arr, leaf, strat, symdev=True, shape=None):
+def _explore(arr, leaf, strat, symdev=True, shape=None, call=None):
     """All executions of the constructor over every seam answer (stateless DFS).
     Returns dict(trees=[(tree, path)], trans={(key,axis): {pivot: (less, more)}}, statuses=Counter-like dict,
     paths=int, splits=int, seam_calls=int, capped=bool, raises=[...], caps=[...])."""
@@ -377,7 +395,7 @@ def _explore(arr, leaf, strat, symdev=True, shape=None):
     stack = [()]
     while stack:
         script = stack.pop()
-        status, val, ctl = _build(arr, leaf, strat, script, symdev, shape)
+        status, val, ctl = _build(arr, leaf, strat, script, symdev, shape, call)
         res["paths"] += 1
         res["splits"] += ctl.nsplits
         res["ticks"] += ctl.ticks
@@ -491,7 +509,7 @@ def _qalphabet(lat):
     return sorted(q)
 
 
-def _check_partition(rep, tree, n, icls, detail):
+def _check_partition(rep, tree, n, icls, detail, unit=None):
     """'every input point is stored in exactly one leaf'."""
     leaves, _ = _tree_shape(tree)
     got = sorted(int(i) for lf in leaves for i in lf.points)
@@ -500,11 +518,11 @@ def _check_partition(rep, tree, n, icls, detail):
         miss = sorted(set(range(n)) - set(got))
         dup = sorted({i for i in got if got.count(i) > 1})
         kind = "mismatch:point_lost" if miss else ("mismatch:point_in_two_leaves" if dup else "mismatch:foreign_index")
-        _viol(rep, "C11.build.partition", "KDTree.__init__", kind, "any_point_set",
+        _viol(rep, _sub(unit, "C11.build.partition"), "KDTree.__init__", kind, _ucls(unit, "any_point_set"),
                       dict(detail, leaf_contents=[[int(i) for i in lf.points] for lf in leaves]))
 
 
-def _check_queries(rep, tree, pts2, qpoints2, tdetail, ks=None):
+def _check_queries(rep, tree, pts2, qpoints2, tdetail, ks=None, unit=None):
     """kNN and radius queries of one tree against brute force on exact integers (all coordinates doubled, so
     d4 = 4 * squared distance is an integer).  Statement clauses, one subcheck each:
       C11.knn.answers      query answers instead of raising
@@ -512,12 +530,16 @@ def _check_queries(rep, tree, pts2, qpoints2, tdetail, ks=None):
       C11.knn.count        exactly min(k, n) of them
       C11.knn.k_smallest   their distances are the k smallest distances (as a multiset: ties may pick either point)
       C11.knn.order        listed in non-decreasing distance
-      C11.radius.answers / C11.radius.exact_ball   exactly the points with distance <= r, each once, any order"""
+      C11.radius.answers / C11.radius.exact_ball   exactly the points with distance <= r, each once, any order
+    Under a unit of length (`unit` = (name, class, scale, offset): the tree was built on scale*(x+offset), scale an exact
+    power of two) the positions and radii are scaled alike; distances, being scaled exactly, compare as the integers do.
+    The subchecks are then named C11.unit.<clause> and the class carries the unit."""
     import numpy as np
     from mouette.geometry import Vec
     n = len(pts2)
+    sc, off = (unit[2], unit[3]) if unit else (1.0, 0)
     for q2 in qpoints2:
-        q = [c / 2 for c in q2]
+        q = [sc * (c / 2 + off) for c in q2]
         qv = Vec(np.array(q, dtype=float))
         d4 = [sum((a - b) ** 2 for a, b in zip(p, q2)) for p in pts2]
         sd4 = sorted(d4)
@@ -527,7 +549,7 @@ def _check_queries(rep, tree, pts2, qpoints2, tdetail, ks=None):
             try:
                 res = tree.query(qv, k)
             except Exception as e:
-                _viol(rep, "C11.knn.answers", "KDTree.query", "raises:" + type(e).__name__, KCLS,
+                _viol(rep, _sub(unit, "C11.knn.answers"), "KDTree.query", "raises:" + type(e).__name__, _ucls(unit, KCLS),
                       dict(tdetail, query=q, k=k, msg=str(e)[:200]))
                 rep.outcome("knn", "raises")
                 continue
@@ -553,17 +575,17 @@ def _check_queries(rep, tree, pts2, qpoints2, tdetail, ks=None):
                 bad = ("C11.knn.order", "mismatch:not_non_decreasing")
             rep.outcome("knn", "len=%s" % (len(idx) if idx is not None else "?"))
             if bad:
-                _viol(rep, bad[0], "KDTree.query", bad[1], KCLS,
+                _viol(rep, _sub(unit, bad[0]), "KDTree.query", bad[1], _ucls(unit, KCLS),
                       dict(tdetail, query=q, k=k, got=idx if idx is not None else repr(res),
                            got_sq_distances=[g / 4 for g in got] if got is not None else None,
                            want_sq_distances=[w / 4 for w in want]))
         for label, r4 in RADII4:
-            r = math.inf if r4 is None else math.sqrt(r4 / 4)
+            r = math.inf if r4 is None else sc * math.sqrt(r4 / 4)
             try:
                 res = tree.query_radius(qv, r)
             except Exception as e:
-                _viol(rep, "C11.radius.answers", "KDTree.query_radius", "raises:" + type(e).__name__, "r=" + label,
-                      dict(tdetail, query=q, r=label, msg=str(e)[:200]))
+                _viol(rep, _sub(unit, "C11.radius.answers"), "KDTree.query_radius", "raises:" + type(e).__name__,
+                      _ucls(unit, "r=" + label), dict(tdetail, query=q, r=label, msg=str(e)[:200]))
                 rep.outcome("radius", "raises")
                 continue
             rep.transitions += 1
@@ -586,9 +608,47 @@ def _check_queries(rep, tree, pts2, qpoints2, tdetail, ks=None):
                 else:
                     kind = "mismatch:repeated_index"
                 on_sphere = r4 is not None and r4 in d4
-                _viol(rep, "C11.radius.exact_ball", "KDTree.query_radius", kind,
-                      "point_on_sphere" if on_sphere else "no_point_on_sphere",
-                      dict(tdetail, query=q, r=label, got=got if got is not None else repr(res), want=want))
+                _viol(rep, _sub(unit, "C11.radius.exact_ball"), "KDTree.query_radius", kind,
+                      _ucls(unit, "point_on_sphere" if on_sphere else "no_point_on_sphere"),
+                      dict(tdetail, query=q, r=label if not unit else "%s x %s" % (label, unit[0].split(",")[0]), radius_given=r,
+                           got=got if got is not None else repr(res), want=want))
+
+
+# ---- unit of length / origin deviation ("all finite point arrays": the answers are those of the same configuration
+# measured in another unit from another origin).  name -> (log2 of the scale, offset): the library is given
+# 2^e * (x + offset) for every lattice coordinate x (exact in binary floating point), positions and radii alike.
+UNITS = {
+    "2^-5,+1": (-5, 1),       # every lattice coordinate strictly inside (0, 1)
+    "2^10,-21": (10, -21),    # every coordinate negative, thousands
+    "2^-30,-3": (-30, -3),    # both signs, around 1e-9 (an absolute tolerance would show)
+    "2^10,+1": (10, 1),       # every coordinate >= 1024
+}
+UNITS_OF_TIER = {"quick": ["2^-5,+1", "2^10,-21", "2^-30,-3"], "thorough": list(UNITS)}
+
+
+def _unit(name, lat):
+    """(name, coarse class computed from the image of the lattice, scale, offset)."""
+    e, o = UNITS[name]
+    img = [(x + o) * 2.0 ** e for x in lat]
+    if all(0 < v < 1 for v in img):
+        where = "lattice_inside_(0,1)"
+    elif all(v < 0 for v in img):
+        where = "lattice<0"
+    elif all(v >= 1 for v in img):
+        where = "lattice>=1"
+    elif any(v < 0 for v in img) and any(v > 0 for v in img):
+        where = "lattice_both_signs"
+    else:
+        where = "lattice>=0"
+    return (name, "unit=2^%d;%s" % (e, where), 2.0 ** e, o)
+
+
+def _sub(unit, name):
+    return name if not unit else "C11.unit." + name[len("C11."):]
+
+
+def _ucls(unit, cls):
+    return cls if not unit else cls + ";" + unit[1]
 
 
 # kNN findings are classified by subcheck and kind only: one pruning defect shows alike for k<n, k==n and k>n
@@ -605,12 +665,17 @@ def _viol(rep, subcheck, callee, kind, icls, detail):
         rep.violation(subcheck, callee, kind, icls, detail)
 
 
-def _run_pointset(rep, pts, d, task, qpoints2):
-    """All builds of one point array (one row order), then the queries on its distinct trees."""
+def _run_pointset(rep, pts, d, task, qpoints2, unit=None):
+    """All builds of one point array (one row order), then the queries on its distinct trees.
+    `unit` (see _unit): the constructor gets scale*(x+offset) instead of the lattice values x."""
     import numpy as np
     n = len(pts)
     dtype = float if task["dtype"] == "float" else np.int64
     arr = np.array(pts, dtype=dtype).reshape(n, d)
+    if unit:
+        arr = (np.array(pts, dtype=float).reshape(n, d) + unit[3]) * unit[2]
+        if [[(c + unit[3]) * unit[2] for c in p] for p in pts] != arr.tolist() or not np.isfinite(arr).all():
+            raise SeamError("unit of length: the scaled lattice is not exact")
     pts2 = [tuple(2 * c for c in p) for p in pts]
     mult = _max_multiplicity(pts)
     trees = {}
@@ -635,23 +700,27 @@ def _run_pointset(rep, pts, d, task, qpoints2):
             if ex["capped"]:
                 rep.flag("capped"); rep.count("capped_explorations")
             base = dict(points=[list(p) for p in pts], dtype=task["dtype"], max_leaf_size=leaf, strategy=strat)
-            icls = _pivot_class(strat) + ";" + dupcls
+            icls = _ucls(unit, _pivot_class(strat) + ";" + dupcls)
+            if unit:
+                base.update(unit=unit[0], points_given="%r * (points %+d)" % (unit[2], unit[3]), points_given_values=arr.tolist())
+                if strat == "random" and ex["splits"]:
+                    rep.flag("unit:random_split:" + unit[0])
             # ---- clause: building finishes
             rep.evaluations += 1
             bad = _non_terminating_states(ex["trans"], leaf, d)
             if bad:
                 key, ax = bad[0]
-                _viol(rep, "C11.build.terminates", "KDTree.__init__", "hang", icls,
+                _viol(rep, _sub(unit, "C11.build.terminates"), "KDTree.__init__", "hang", icls,
                               dict(base, stuck_leaf_indices=list(key), stuck_leaf_points=[list(pts[i]) for i in key],
                                    axis=ax, why="no sequence of pivot answers separates this pending leaf: the real "
                                                 "constructor re-splits the same index set on the same axis (state repeated)",
                                    constructor_runs=ex["paths"], completed=ex["statuses"].get("ok", 0)))
             for val, path in ex["caps"][:1]:
-                _viol(rep, "C11.build.terminates", "KDTree.__init__", "hang", icls + ";cap",
+                _viol(rep, _sub(unit, "C11.build.terminates"), "KDTree.__init__", "hang", icls + ";cap",
                               dict(base, why=val, pivot_script=list(path)))
             for val, path in ex["raises"][:1]:
-                _viol(rep, "C11.build.finishes", "KDTree.__init__", "raises:" + val[0], _pivot_class(strat),
-                              dict(base, msg=val[1], pivot_script=list(path)))
+                _viol(rep, _sub(unit, "C11.build.finishes"), "KDTree.__init__", "raises:" + val[0],
+                              _ucls(unit, _pivot_class(strat)), dict(base, msg=val[1], pivot_script=list(path)))
             # ---- distinct trees
             for tree, path in ex["trees"]:
                 k = _tree_key(tree)
@@ -661,10 +730,14 @@ def _run_pointset(rep, pts, d, task, qpoints2):
     for k in sorted(trees, key=repr):
         tree, tdetail, icls = trees[k]
         leaves, ninternal = _tree_shape(tree)
-        _check_partition(rep, tree, n, icls, tdetail)
+        _check_partition(rep, tree, n, icls, tdetail, unit)
         if ninternal:
             rep.case((tuple(pts), task["dtype"], k))
             rep.flag("tree:internal_node")
+            if unit:
+                rep.flag("unit:internal_node:" + unit[0])
+                if qpoints2 is not None:
+                    rep.flag("unit:queried:" + unit[0])
         if ninternal >= 3:
             rep.flag("tree:three_internal_nodes")
         if any(lf.points.size == 0 for lf in leaves):
@@ -672,7 +745,7 @@ def _run_pointset(rep, pts, d, task, qpoints2):
         if any(lf.points.size > 1 for lf in leaves) and ninternal:
             rep.flag("tree:multi_point_leaf")
         if qpoints2 is not None:
-            _check_queries(rep, tree, pts2, qpoints2, tdetail)
+            _check_queries(rep, tree, pts2, qpoints2, tdetail, unit=unit)
     rep.count("distinct_trees", len(trees))
     return len(trees)
 
@@ -686,14 +759,22 @@ def _run_family(task, rep):
         qpoints2 = list(itertools.product(qa, repeat=d))
     else:
         qpoints2 = None
-    for combo in itertools.islice(gen, task["start"], task["stop"]):
+    units = task.get("units")
+    for off, combo in enumerate(itertools.islice(gen, task["start"], task["stop"])):
         pts = [lattice_pts[i] for i in combo]
         rep.count(f"multisets:{task['fam']}:n={n}")
+        if units:     # quick: one unit per point set, rotating with the index of the set; thorough: every unit
+            mine = units if task["all_units"] else [units[(task["start"] + off) % len(units)]]
+        else:
+            mine = [None]
         for order in task["orders"]:
             p = pts if order == "sorted" else pts[::-1]
             if order != "sorted" and p == pts:
                 continue
-            _run_pointset(rep, p, d, task, qpoints2)
+            for u in mine:
+                _run_pointset(rep, p, d, task, qpoints2, _unit(u, lat) if u else None)
+                if u:
+                    rep.count("unit_pointsets:" + u)
         if n >= 2 and len(rep.samples) < 2 and task["start"] % 7 == 0:
             rep.sample(dict(points=[list(p) for p in pts], family=task["fam"]))
 
@@ -755,6 +836,36 @@ def _run_fast51(task, rep):
             trees[k] = (tree, dict(base, seam_answer_indices=path[0], split_values_in_call_order=path[1]))
     rep.count("distinct_trees", len(trees))
     rep.count("distinct_trees:fast51", len(trees))
+    # ---- strategy omitted where the documented default 'fast' differs from 'balanced': above 50 points
+    if task.get("omit") and not (bad or ex["caps"] or ex["raises"]):
+        ref_keys = set(trees)
+        bal = _explore(arr, leaf, "balanced")
+        _account(rep, bal)
+        if {_tree_key(t) for t, _ in bal["trees"]} != ref_keys:
+            rep.flag("defaults:strategy_matters")
+        fails = {}
+        for form, lf, label, param in (("omit:strategy", leaf, "KDTree(points, max_leaf_size=%d)" % leaf, "strategy"),
+                                       ("omit:strategy:positional", leaf, "KDTree(points, %d)" % leaf, "strategy"),
+                                       ("omit:max_leaf_size+strategy", DEFAULT_LEAF, "KDTree(points)", "max_leaf_size+strategy")):
+            if lf == leaf:
+                want = ref_keys
+            else:
+                r2 = _explore(arr, lf, DEFAULT_STRATEGY, symdev=task["symdev"])
+                _account(rep, r2)
+                usable, want = _build_summary(r2, lf, d)
+                if not usable:
+                    continue
+            ex2 = _explore(arr, lf, DEFAULT_STRATEGY, symdev=task["symdev"], call=_ctor_call(form, arr, lf, None))
+            _account(rep, ex2)
+            for name in param.split("+"):
+                rep.count("defaults_exercised:KDTree.__init__." + name)
+            rep.count("defaults_exercised_above_50_points")
+            b = _compare_builds(rep, want, ex2, lf, d)
+            if b:
+                kind = "mismatch:default_value" if b[0].startswith("mismatch") else b[0]
+                fails.setdefault((kind, param), dict(base, call=label, documented_defaults=dict(max_leaf_size=DEFAULT_LEAF, strategy=DEFAULT_STRATEGY), **b[1]))
+        for (kind, param) in sorted(fails):
+            _viol(rep, "C11.defaults.omitted", "KDTree.__init__", kind, param, fails[(kind, param)])
     # queries: every 4th input point, its half-step neighbour, two outside points; k in {1,2,3,10,50,51,52}
     pts2 = [tuple(2 * c for c in p) for p in pts]
     lo = [min(p[a] for p in pts2) for a in range(d)]
@@ -1186,6 +1297,439 @@ def _run_forms(task, rep):
 
 
 # ------------------------------------------------------------------------------------------------
+# call forms: spelling of the strategy name, keyword / positional arguments, omitted arguments (documented defaults)
+#
+# What a call means does not depend on how it is written: KDTree(P, 2, "fast"), KDTree(points=P, max_leaf_size=2,
+# strategy="fast"), KDTree(P, 2) (strategy omitted: the documented default 'fast') and KDTree(P, 2, "Fast") (the
+# constructor validates strategy.lower(): names are case-insensitive) all denote the same set of builds over the
+# answers of the pivot seam.  The expectation of every call form is the set of distinct trees of the reference form
+# (everything positional, lower-case name, as used by all other families, whose trees are judged against the
+# brute-force tables), or for the queries the brute-force table itself.
+#
+# DOCUMENTED: parameter order and default values copied from the signatures / docstrings of the unchanged tree
+# ("max_leaf_size (int, optional): ... Defaults to 10", "strategy ... Defaults to 'fast'", "k ... Defaults to 1",
+# "which ... Defaults to 'l2'").  NOT read from the library at run time: a changed default changes the signature too.
+REQUIRED = "<required>"
+DOCUMENTED = {
+    "KDTree.__init__": [["points", REQUIRED], ["max_leaf_size", 10], ["strategy", "fast"]],
+    "KDTree.query": [["pt", REQUIRED], ["k", 1]],
+    "KDTree.query_radius": [["pt", REQUIRED], ["r", REQUIRED]],
+    "AABB.distance": [["pt", REQUIRED], ["which", "l2"]],          # box-point distance used for pruning (never given `which`)
+    "geometry.distance": [["A", REQUIRED], ["B", REQUIRED], ["which", "l2"]],   # point-point distance used by both queries
+}
+DEFAULT_LEAF = DOCUMENTED["KDTree.__init__"][1][1]
+DEFAULT_STRATEGY = DOCUMENTED["KDTree.__init__"][2][1]
+DEFAULT_K = DOCUMENTED["KDTree.query"][1][1]
+SPELLINGS = ["Capitalised", "UPPER"]          # besides the lower-case reference
+KW_FORMS = ["points_positional", "all_keywords", "strategy_keyword_only", "keywords_in_other_order"]
+QUERY_FORMS = ["k_keyword", "all_keywords", "keywords_in_other_order"]
+
+
+def _spell(name, how):
+    return {"lower": name.lower(), "Capitalised": name.capitalize(), "UPPER": name.upper()}[how]
+
+
+def _ctor_call(form, arr, leaf, strat):
+    """function(cls) -> tree for one written form of the constructor call."""
+    if form == "points_positional":
+        return lambda K: K(arr, max_leaf_size=leaf, strategy=strat)
+    if form == "all_keywords":
+        return lambda K: K(points=arr, max_leaf_size=leaf, strategy=strat)
+    if form == "strategy_keyword_only":
+        return lambda K: K(arr, leaf, strategy=strat)
+    if form == "keywords_in_other_order":
+        return lambda K: K(strategy=strat, points=arr, max_leaf_size=leaf)
+    if form == "omit:strategy":
+        return lambda K: K(arr, max_leaf_size=leaf)
+    if form == "omit:strategy:positional":
+        return lambda K: K(arr, leaf)
+    if form == "omit:max_leaf_size":
+        return lambda K: K(arr, strategy=strat)
+    if form == "omit:max_leaf_size+strategy":
+        return lambda K: K(arr)
+    if form == "omit:max_leaf_size+strategy:keyword":
+        return lambda K: K(points=arr)
+    raise ValueError(form)
+
+
+def _account(rep, ex):
+    rep.traces += ex["paths"]
+    rep.transitions += ex["splits"]
+    rep.count("constructor_runs", ex["paths"])
+    rep.count("call_constructor_runs", ex["paths"])
+    if ex["capped"]:
+        rep.flag("capped"); rep.count("capped_explorations")
+
+
+def _build_summary(ex, leaf, d):
+    """(usable, set of distinct trees) of an exploration; usable = every run finished and nothing is stuck."""
+    stuck = bool(_non_terminating_states(ex["trans"], leaf, d)) or bool(ex["caps"])
+    keys = {_tree_key(t) for t, _ in ex["trees"]}
+    return (not stuck and not ex["raises"] and bool(keys)), keys
+
+
+def _compare_builds(rep, ref_keys, ex, leaf, d):
+    """None when the exploration `ex` of another written form built exactly the trees of the reference form,
+    else (kind, info)."""
+    rep.evaluations += 1
+    if ex["raises"]:
+        (cls, msg), path = ex["raises"][0]
+        return "raises:" + cls, dict(msg=msg, pivot_script=list(path))
+    if ex["caps"] or _non_terminating_states(ex["trans"], leaf, d):
+        return "hang", dict(why="a pending leaf is split again and again")
+    keys = {_tree_key(t) for t, _ in ex["trees"]}
+    if keys != ref_keys:
+        only = sorted(keys - ref_keys, key=repr)[:1] or sorted(ref_keys - keys, key=repr)[:1]
+        return "mismatch:trees_differ", dict(trees_of_this_form=len(keys), trees_of_reference_form=len(ref_keys),
+                                             a_tree_in_one_only=repr(only[0])[:600])
+    return None
+
+
+def _names_class(failing, tried, all_label):
+    failing, tried = sorted(set(failing)), sorted(set(tried))
+    return all_label if failing == tried else "+".join(failing)
+
+
+def _call_families(tier):
+    if tier == "quick":
+        return [
+            _fam("call-1d-L5", 1, L5, 2, 3, batch=10, leafs=(1, 2)),
+            _fam("call-2d-L2", 2, L2, 2, 3, batch=10, leafs=(1, 2), qalpha=[-2, 0, 8, 16]),
+        ]
+    return [
+        _fam("call-1d-L5", 1, L5, 2, 4, batch=5, leafs=(1, 2, 3)),
+        _fam("call-2d-L3", 2, L3, 2, 3, batch=5, leafs=(1, 2), qalpha=[-2, 0, 1, 9, 16]),
+        _fam("call-3d-L2", 3, L2, 2, 3, batch=5, leafs=(1, 2), qalpha=[-2, 8, 16]),
+    ]
+
+
+def _call_tasks(tier):
+    out = []
+    for f in _call_families(tier):
+        m = len(f["lat"]) ** f["d"]
+        for n in range(f["nmin"], f["nmax"] + 1):
+            total = n_multisets(m, n)
+            for start in range(0, total, f["batch"]):
+                t = dict(f)
+                for key in ("nmin", "nmax", "batch", "q", "orders", "dtype"):
+                    t.pop(key)
+                t.update(kind="call", n=n, start=start, stop=min(total, start + f["batch"]), all_forms=(tier != "quick"))
+                out.append(t)
+    out += [dict(fam="defaults", kind="defaults", which=w, strategies=st) for w, st in _default_inputs(tier)]
+    out.append(dict(fam="defaults", kind="signature"))
+    return out
+
+
+def _run_call(task, rep):
+    d, lat, n = task["d"], task["lat"], task["n"]
+    lattice_pts = list(itertools.product(lat, repeat=d))
+    gen = itertools.combinations_with_replacement(range(len(lattice_pts)), n)
+    qa = task.get("qalpha") or _qalphabet(lat)
+    qpoints2 = list(itertools.product(qa, repeat=d))
+    for off, combo in enumerate(itertools.islice(gen, task["start"], task["stop"])):
+        pts = [lattice_pts[i] for i in combo]
+        rep.count(f"callsets:{task['fam']}:n={n}")
+        _run_call_pointset(rep, pts, d, task, qpoints2, task["start"] + off)
+
+
+def _run_call_pointset(rep, pts, d, task, qpoints2, set_index):
+    import numpy as np
+    n = len(pts)
+    arr = np.array(pts, dtype=float).reshape(n, d)
+    base = dict(points=[list(p) for p in pts])
+    kwforms = KW_FORMS if task["all_forms"] else [KW_FORMS[set_index % len(KW_FORMS)]]
+    spell_fail, spell_tried = {}, []        # kind -> [(strategy, spelling, detail)]
+    kw_fail, kw_tried = {}, []              # kind -> [(form, detail)]
+    omit_fail = {}                          # kind -> detail
+    ref_of = {}
+    first_tree = None
+    for leaf in task["leafs"]:
+        for strat in ALL:
+            ref = _explore(arr, leaf, strat)
+            _account(rep, ref)
+            usable, ref_keys = _build_summary(ref, leaf, d)
+            ref_of[(leaf, strat)] = (usable, ref_keys)
+            if not usable:
+                rep.count("call_reference_unusable")      # reported by the build clauses of the other families
+                continue
+            if ref["splits"]:
+                rep.flag("call:reference_split:" + strat)
+            if first_tree is None:
+                cand = sorted((t for t, _ in ref["trees"]), key=lambda t: repr(_tree_key(t)))
+                cand = [t for t in cand if _tree_shape(t)[1]]
+                if cand:
+                    first_tree = (cand[0], dict(base, max_leaf_size=leaf, strategy=strat))
+            b2 = dict(base, max_leaf_size=leaf)
+            for how in SPELLINGS:
+                name = _spell(strat, how)
+                ex = _explore(arr, leaf, name)
+                _account(rep, ex)
+                spell_tried.append((strat, how))
+                rep.count("call_spelling:%s:%s" % (strat, how))
+                bad = _compare_builds(rep, ref_keys, ex, leaf, d)
+                if bad:
+                    spell_fail.setdefault(bad[0], []).append((strat, how, dict(b2, strategy=name, **bad[1])))
+            for form in kwforms:
+                ex = _explore(arr, leaf, strat, call=_ctor_call(form, arr, leaf, strat))
+                _account(rep, ex)
+                kw_tried.append(form)
+                rep.count("call_form:" + form)
+                bad = _compare_builds(rep, ref_keys, ex, leaf, d)
+                if bad:
+                    kw_fail.setdefault(bad[0], []).append((form, dict(b2, strategy=strat, call=form, **bad[1])))
+        # strategy omitted: the documented default
+        usable, ref_keys = ref_of[(leaf, DEFAULT_STRATEGY)]
+        if usable:
+            for form in ("omit:strategy", "omit:strategy:positional"):
+                ex = _explore(arr, leaf, DEFAULT_STRATEGY, call=_ctor_call(form, arr, leaf, None))
+                _account(rep, ex)
+                rep.count("defaults_exercised:KDTree.__init__.strategy")
+                bad = _compare_builds(rep, ref_keys, ex, leaf, d)
+                if bad:
+                    kind = "mismatch:default_value" if bad[0].startswith("mismatch") else bad[0]
+                    omit_fail.setdefault(kind, dict(base, max_leaf_size=leaf, call="KDTree(points, max_leaf_size) - strategy omitted",
+                                                    documented_default=DEFAULT_STRATEGY, **bad[1]))
+    for kind in sorted(spell_fail):
+        lst = spell_fail[kind]
+        strategies = _names_class([x[0] for x in lst], [x[0] for x in spell_tried], "any")
+        hows = _names_class([x[1] for x in lst], [x[1] for x in spell_tried], "any_but_lower_case")
+        _viol(rep, "C11.call.strategy_spelling", "KDTree.__init__", kind, "strategy=%s;spelling=%s" % (strategies, hows),
+              dict(lst[0][2], wrong_for=sorted({(a, b) for a, b, _ in lst}), tried=sorted(set(spell_tried)),
+                   expected="the builds of the lower-case name (the constructor validates strategy.lower())"))
+    for kind in sorted(kw_fail):
+        lst = kw_fail[kind]
+        _viol(rep, "C11.call.keyword_forms", "KDTree.__init__", kind,
+              "call=" + _names_class([x[0] for x in lst], kw_tried, "any_keyword_form_tried"),
+              dict(lst[0][1], forms_wrong=sorted({x[0] for x in lst}), forms_tried=sorted(set(kw_tried)),
+                   expected="the builds of KDTree(points, max_leaf_size, strategy) written positionally"))
+    for kind in sorted(omit_fail):
+        _viol(rep, "C11.defaults.omitted", "KDTree.__init__", kind, "strategy", omit_fail[kind])
+    if first_tree is not None:
+        pts2 = [tuple(2 * c for c in p) for p in pts]
+        _ask_call_forms(rep, first_tree[0], pts2, qpoints2, first_tree[1], range(1, n + 2))
+
+
+def _ask_call_forms(rep, tree, pts2, qpoints2, tdetail, ks):
+    """The queries of one tree written with keywords and with k omitted, against the brute-force table."""
+    import numpy as np
+    from mouette.geometry import Vec
+    n = len(pts2)
+    kw_fail, omit_fail = {}, {}
+    for q2 in qpoints2:
+        q = [c / 2 for c in q2]
+        qv = Vec(np.array(q, dtype=float))
+        d4 = [sum((a - b) ** 2 for a, b in zip(p, q2)) for p in pts2]
+        sd4 = sorted(d4)
+        # ---- k omitted: the documented default
+        for form, fn in (("omit:k", lambda: tree.query(qv)), ("omit:k:keyword", lambda: tree.query(pt=qv))):
+            rep.transitions += 1
+            rep.evaluations += 1
+            rep.count("defaults_exercised:KDTree.query.k")
+            if n >= 2:
+                rep.flag("defaults:k_matters")
+            try:
+                bad = _judge_knn(fn(), d4, sd4, DEFAULT_K, n)
+            except Exception as e:
+                bad = ("answers", "raises:" + type(e).__name__, dict(msg=str(e)[:200]))
+            if bad:
+                kind = "mismatch:default_value" if bad[1].startswith("mismatch") else bad[1]
+                omit_fail.setdefault(kind, dict(tdetail, query=q, call="query(pt) - k omitted", documented_default=DEFAULT_K,
+                                                wrong_as=bad[1], **bad[2]))
+        for k in ks:
+            for form, fn in (("k_keyword", lambda: tree.query(qv, k=k)), ("all_keywords", lambda: tree.query(pt=qv, k=k)),
+                             ("keywords_in_other_order", lambda: tree.query(k=k, pt=qv))):
+                rep.transitions += 1
+                rep.evaluations += 1
+                rep.count("call_query_form:" + form)
+                try:
+                    bad = _judge_knn(fn(), d4, sd4, k, n)
+                except Exception as e:
+                    bad = ("answers", "raises:" + type(e).__name__, dict(msg=str(e)[:200]))
+                if bad:
+                    kw_fail.setdefault(("KDTree.query", bad[1]), []).append((form, dict(tdetail, query=q, k=k, call=form, **bad[2])))
+        for label, r4 in RADII4:
+            r = math.inf if r4 is None else math.sqrt(r4 / 4)
+            for form, fn in (("k_keyword", lambda: tree.query_radius(qv, r=r)), ("all_keywords", lambda: tree.query_radius(pt=qv, r=r)),
+                             ("keywords_in_other_order", lambda: tree.query_radius(r=r, pt=qv))):
+                rep.transitions += 1
+                rep.evaluations += 1
+                rep.count("call_radius_form:" + form)
+                try:
+                    bad = _judge_radius(fn(), d4, r4, n)
+                except Exception as e:
+                    bad = ("answers", "raises:" + type(e).__name__, dict(msg=str(e)[:200]))
+                if bad:
+                    kw_fail.setdefault(("KDTree.query_radius", bad[1]), []).append((form, dict(tdetail, query=q, r=label, call=form, **bad[2])))
+    for (callee, kind) in sorted(kw_fail):
+        lst = kw_fail[(callee, kind)]
+        _viol(rep, "C11.call.keyword_forms", callee, kind, "call=" + _names_class([x[0] for x in lst], QUERY_FORMS, "any_keyword_form_tried"),
+              dict(lst[0][1], forms_wrong=sorted({x[0] for x in lst}), wrong_calls=len(lst)))
+    for kind in sorted(omit_fail):
+        _viol(rep, "C11.defaults.omitted", "KDTree.query", kind, "k", omit_fail[kind])
+
+
+# ---- inputs on which the default leaf size matters: more points than the documented 10
+def _default_points(which):
+    kind, n = which.split(":")
+    n = int(n)
+    if kind == "line":            # n distinct points on a line
+        return [(i,) for i in range(n)]
+    if kind == "grid":            # rows of 4 in the plane
+        return [(i % 4, i // 4) for i in range(n)]
+    if kind == "pairs":           # two values, each n/2 times (+ one more of the first): unsplittable halves
+        return [(8 * (i % 2),) for i in range(n)]
+    if kind == "heap":            # n-1 copies of one point and one other point
+        return [(0, 0)] * (n - 1) + [(8, 1)]
+    raise ValueError(which)
+
+
+def _default_inputs(tier):
+    out = [("line:%d" % n, ALL) for n in (9, 10, 11, 12)] + [("grid:12", ALL), ("pairs:12", ALL), ("heap:12", ALL),
+                                                                   ("line:23", BF)]
+    if tier != "quick":
+        out += [("line:13", ALL), ("grid:11", ALL), ("grid:14", ALL), ("pairs:23", BF), ("grid:35", BF)]
+    return out
+
+
+def _run_defaults(task, rep):
+    """max_leaf_size omitted (alone / together with strategy) on inputs with about and more than 10 points."""
+    import numpy as np
+    pts = _default_points(task["which"])
+    n, d = len(pts), len(pts[0])
+    arr = np.array(pts, dtype=float).reshape(n, d)
+    base = dict(points="props/c11._default_points(%r)" % task["which"], n=n)
+    rep.count("default_inputs")
+    distinct_pts = len(set(pts))
+    fails = {}          # (param class, kind) -> detail
+    asked = None
+
+    def one(form, strat, label, param):
+        nonlocal asked
+        ref = _explore(arr, DEFAULT_LEAF, strat, call=lambda K: K(arr, max_leaf_size=DEFAULT_LEAF, strategy=strat))
+        _account(rep, ref)
+        usable, ref_keys = _build_summary(ref, DEFAULT_LEAF, d)
+        pos = _explore(arr, DEFAULT_LEAF, strat)
+        _account(rep, pos)
+        ex = _explore(arr, DEFAULT_LEAF, strat, call=_ctor_call(form, arr, None, strat))
+        _account(rep, ex)
+        for name in param.split("+"):
+            rep.count("defaults_exercised:KDTree.__init__." + name)
+        if not usable:
+            rep.count("call_reference_unusable")
+            ic = _ucls(None, _pivot_class(strat))
+            for (cls, msg), path in ref["raises"][:1]:
+                _viol(rep, "C11.build.finishes", "KDTree.__init__", "raises:" + cls, ic, dict(base, strategy=strat, max_leaf_size=DEFAULT_LEAF, msg=msg))
+            if ref["caps"] or _non_terminating_states(ref["trans"], DEFAULT_LEAF, d):
+                _viol(rep, "C11.build.terminates", "KDTree.__init__", "hang", ic + ";n>10", dict(base, strategy=strat, max_leaf_size=DEFAULT_LEAF))
+            return
+        bad = _compare_builds(rep, ref_keys, pos, DEFAULT_LEAF, d)
+        if bad:
+            fails.setdefault(("C11.call.keyword_forms", bad[0], "call=points_positional"),
+                             dict(base, strategy=strat, max_leaf_size=DEFAULT_LEAF, call="KDTree(points, 10, strategy) against the keyword form", **bad[1]))
+        bad = _compare_builds(rep, ref_keys, ex, DEFAULT_LEAF, d)
+        if bad:
+            kind = "mismatch:default_value" if bad[0].startswith("mismatch") else bad[0]
+            fails.setdefault(("C11.defaults.omitted", kind, param),
+                             dict(base, call=label, documented_defaults=dict(max_leaf_size=DEFAULT_LEAF, strategy=DEFAULT_STRATEGY), **bad[1]))
+        # the documented leaf size read off the trees themselves: a leaf holds at most 10 points unless they are all one point,
+        # and up to 10 points are never split
+        for tree, _ in ex["trees"]:
+            rep.evaluations += 1
+            leaves, ninternal = _tree_shape(tree)
+            big = [lf for lf in leaves if lf.points.size > DEFAULT_LEAF and len({pts[int(i)] for i in lf.points}) > 1]
+            if big or (n <= DEFAULT_LEAF and ninternal):
+                fails.setdefault(("C11.defaults.omitted", "mismatch:default_value", param),
+                                 dict(base, call=label, documented_defaults=dict(max_leaf_size=DEFAULT_LEAF),
+                                      leaf_sizes=[int(lf.points.size) for lf in leaves], internal_nodes=ninternal))
+            if ninternal:
+                rep.flag("defaults:split_above_%d" % DEFAULT_LEAF)
+            elif n <= DEFAULT_LEAF:
+                rep.flag("defaults:single_leaf_up_to_%d" % DEFAULT_LEAF)
+        if asked is None and ex["trees"]:
+            cand = sorted((t for t, _ in ex["trees"]), key=lambda t: repr(_tree_key(t)))
+            asked = (cand[0], dict(base, call=label))
+
+    one("omit:max_leaf_size+strategy", DEFAULT_STRATEGY, "KDTree(points)", "max_leaf_size+strategy")
+    one("omit:max_leaf_size+strategy:keyword", DEFAULT_STRATEGY, "KDTree(points=points)", "max_leaf_size+strategy")
+    for strat in task["strategies"]:
+        one("omit:max_leaf_size", strat, "KDTree(points, strategy=%r)" % strat, "max_leaf_size")
+    for (sub, kind, cls) in sorted(fails):
+        _viol(rep, sub, "KDTree.__init__", kind, cls, fails[(sub, kind, cls)])
+    if asked is not None:
+        tree, tdetail = asked
+        pts2 = [tuple(2 * c for c in p) for p in pts]
+        lo = [min(p[a] for p in pts2) for a in range(d)]
+        hi = [max(p[a] for p in pts2) for a in range(d)]
+        qs = [pts2[i] for i in range(0, n, 3)] + [tuple(c + 1 for c in pts2[i]) for i in range(1, n, 4)]
+        qs += [tuple(c - 2 for c in lo), tuple(c + 2 for c in hi)]
+        qs = sorted(set(qs))
+        ks = sorted({1, 2, 3, DEFAULT_LEAF, DEFAULT_LEAF + 1, n - 1, n, n + 1})
+        _check_partition(rep, tree, n, "any_point_set", tdetail)
+        _check_queries(rep, tree, pts2, qs, tdetail, ks=ks)
+        _ask_call_forms(rep, tree, pts2, qs, tdetail, ks)
+        if _tree_shape(tree)[1]:
+            rep.case(("defaults", task["which"], _tree_key(tree)))
+
+
+def _run_signature(task, rep):
+    """Cheap guard: the written signatures still say what DOCUMENTED says (order of the parameters, default values),
+    and the box / point distances taken with `which` omitted are the documented Euclidean ones."""
+    import inspect
+    import numpy as np
+    from mouette.spatial.kdtree import KDTree
+    from mouette.geometry import AABB, Vec
+    from mouette.geometry import geometry as G
+    fns = {"KDTree.__init__": KDTree.__init__, "KDTree.query": KDTree.query, "KDTree.query_radius": KDTree.query_radius,
+           "AABB.distance": AABB.distance, "geometry.distance": G.distance}
+    for callee in sorted(DOCUMENTED):
+        want = DOCUMENTED[callee]
+        params = [p for p in inspect.signature(fns[callee]).parameters.values() if p.name != "self"]
+        got = [[p.name, REQUIRED if p.default is inspect.Parameter.empty else p.default] for p in params]
+        rep.count("signature_checked:" + callee)
+        rep.evaluations += 1
+        names_got, names_want = [g[0] for g in got], [w[0] for w in want]
+        detail = dict(signature=str(inspect.signature(fns[callee])), documented=want)
+        if names_got[:len(names_want)] != names_want:
+            cls = "parameters_reordered" if sorted(names_got) == sorted(names_want) else "parameters_renamed_or_missing"
+            _viol(rep, "C11.defaults.signature", callee, "mismatch:parameter_order", cls, detail)
+            continue
+        for p in params[len(names_want):]:
+            if p.default is inspect.Parameter.empty and p.kind in (p.POSITIONAL_ONLY, p.POSITIONAL_OR_KEYWORD):
+                _viol(rep, "C11.defaults.signature", callee, "mismatch:parameter_order", "new_required_parameter", detail)
+        for (name, dv), (_, gv) in zip(want, got):
+            rep.evaluations += 1
+            rep.count("signature_default_checked:%s.%s" % (callee, name))
+            same = (type(dv) is type(gv) and dv == gv)
+            if not same:
+                _viol(rep, "C11.defaults.signature", callee, "mismatch:default_value", name,
+                      dict(detail, parameter=name, documented_default=repr(dv), default_in_signature=repr(gv)))
+    # the two distances with `which` omitted, on a 3-4-5 configuration (l2 = 5, l1 = 7, linf = 4)
+    box = AABB(np.array([0., 0.]), np.array([1., 1.]))
+    pt = Vec(np.array([4., 5.]))
+    for callee, param, calls in (
+            ("AABB.distance", "which", [("distance(pt)", lambda: box.distance(pt)), ("distance(pt=pt)", lambda: box.distance(pt=pt)),
+                                        ("distance(pt, 'l2')", lambda: box.distance(pt, "l2")),
+                                        ("distance(pt, which='l2')", lambda: box.distance(pt, which="l2"))]),
+            ("geometry.distance", "which", [("distance(A, B)", lambda: G.distance(Vec(np.array([1., 1.])), pt)),
+                                            ("distance(A, B, 'l2')", lambda: G.distance(Vec(np.array([1., 1.])), pt, "l2")),
+                                            ("distance(B=B, A=A)", lambda: G.distance(B=pt, A=Vec(np.array([1., 1.]))))])):
+        for label, fn in calls:
+            rep.transitions += 1
+            rep.evaluations += 1
+            rep.count("defaults_exercised:%s.%s" % (callee, param))
+            try:
+                got = float(fn())
+            except Exception as e:
+                _viol(rep, "C11.defaults.omitted", callee, "raises:" + type(e).__name__, param, dict(call=label, msg=str(e)[:200]))
+                continue
+            if got != 5.0:
+                omitted = "l2" not in label
+                _viol(rep, "C11.defaults.omitted" if omitted else "C11.call.keyword_forms", callee,
+                      "mismatch:default_value" if omitted else "mismatch:distance", param if omitted else "call=which_given",
+                      dict(call=label, box=[[0, 0], [1, 1]], A=[1, 1], point=[4, 5], got=got, want=5.0))
+
+
+# ------------------------------------------------------------------------------------------------
 def run_task(task, rep):
     import mouette  # noqa: F401  (inside the function: the manifest generator parses drivers without the repo)
     with _Seam():
@@ -1194,6 +1738,12 @@ def run_task(task, rep):
             _run_fast51(task, rep)
         elif task.get("kind") == "forms":
             _run_forms(task, rep)
+        elif task.get("kind") == "call":
+            _run_call(task, rep)
+        elif task.get("kind") == "defaults":
+            _run_defaults(task, rep)
+        elif task.get("kind") == "signature":
+            _run_signature(task, rep)
         else:
             _run_family(task, rep)
 
@@ -1232,6 +1782,45 @@ def finish(tier, rep):
                   "forms_fractional_queries:after_edit"] + ["forms_queries:" + q for q in QFORMS_FLOAT + QFORMS_INT]):
         if c.get(name, 0) <= 0:
             fails.append(f"counter {name} is zero: the argument-form clauses did not run")
+    # unit of length: every unit of the tier built, split by random pivots, and asked on a tree with an internal node
+    for u in UNITS_OF_TIER[tier]:
+        for fl in ("unit:internal_node:", "unit:queried:", "unit:random_split:"):
+            if fl + u not in rep.flags:
+                fails.append(f"unit of length {u}: coverage flag {fl[:-1]} missing")
+        if c.get("unit_pointsets:" + u, 0) <= 0:
+            fails.append(f"unit of length {u}: no point set")
+    # call forms and documented defaults: every entry of the tables was exercised
+    for f in _call_families(tier):
+        m = len(f["lat"]) ** f["d"]
+        for n in range(f["nmin"], f["nmax"] + 1):
+            if c.get(f"callsets:{f['fam']}:n={n}", 0) != n_multisets(m, n):
+                fails.append(f"family {f['fam']} n={n}: enumerated {c.get('callsets:%s:n=%d' % (f['fam'], n), 0)} point sets, expected {n_multisets(m, n)}")
+    for strat in ALL:
+        for how in SPELLINGS:
+            if c.get("call_spelling:%s:%s" % (strat, how), 0) <= 0:
+                fails.append(f"strategy name {strat} never given as {how}")
+        if "call:reference_split:" + strat not in rep.flags:
+            fails.append(f"call forms: no build with strategy {strat} split a leaf")
+    for form in KW_FORMS:
+        if c.get("call_form:" + form, 0) <= 0:
+            fails.append(f"constructor call form {form} never used")
+    for form in QUERY_FORMS:
+        if c.get("call_query_form:" + form, 0) <= 0 or c.get("call_radius_form:" + form, 0) <= 0:
+            fails.append(f"query call form {form} never used")
+    for callee, params in DOCUMENTED.items():
+        if c.get("signature_checked:" + callee, 0) != 1:
+            fails.append(f"signature of {callee} not compared with the documented one")
+        for name, dv in params:
+            if dv != REQUIRED and c.get("defaults_exercised:%s.%s" % (callee, name), 0) <= 0:
+                fails.append(f"documented default {callee}.{name}={dv!r}: no call with the argument omitted")
+    if c.get("default_inputs", 0) != len(_default_inputs(tier)):
+        fails.append("inputs with more than 10 points: not all were run")
+    if c.get("defaults_exercised_above_50_points", 0) <= 0:
+        fails.append("strategy never omitted above 50 points (where 'fast' differs from 'balanced')")
+    for fl in ("defaults:strategy_matters", "defaults:k_matters", "defaults:split_above_%d" % DEFAULT_LEAF,
+               "defaults:single_leaf_up_to_%d" % DEFAULT_LEAF):
+        if fl not in rep.flags:
+            fails.append("coverage flag missing: " + fl)
     if c.get("seam_calls:balanced", 0) != 0:
         fails.append("the balanced strategy drew random numbers")
     for fl in ("input:duplicates_beyond_leaf_size", "tree:internal_node", "tree:three_internal_nodes", "tree:empty_leaf",
